@@ -402,3 +402,48 @@ def field_name(spec):
     if mod is None:
         return f'GF({p})' + (f'[n,w={spec["nw"]}]' if spec.get('nw') else '')
     return f'GF({p}^{len(mod) - 1})/{mod}'
+
+
+# -- boundary alphabets for fields too large to enumerate -------------------------------------------
+
+def prime_alphabet(p):
+    """Residues {0,1,2,3,p-3..p-1,(p+-1)/2,(p+-3)/2,p//3.., +-2^j, +-2^j+-1 for all j <= bits(p)}."""
+    s = {0, 1, 2, 3, p - 1, p - 2, p - 3, (p - 1) // 2, (p + 1) // 2, (p - 3) // 2, (p + 3) // 2, p // 3, p // 3 + 1}
+    for j in range(1, p.bit_length() + 1):
+        for dlt in (-1, 0, 1):
+            s.add((2**j + dlt) % p)
+            s.add((dlt - 2**j) % p)
+    return sorted(c % p for c in s)
+
+
+def ext_alphabet(R):
+    """Codes of elements whose coefficients come from a boundary alphabet (odd p) or whose bit
+    patterns are 0,1,x,x+1, all-ones, alternating, x^j, x^j+1, x^j-1 ... (p = 2)."""
+    p, d, q = R.p, R.d, R.q
+    if p == 2:
+        s = {0, 1, 2 % q, 3 % q, q - 1, q - 2, q >> 1, (q >> 1) + 1, max(0, (q >> 1) - 1), undigits(R.modulus, 2) ^ q}
+        s.add(int('0' + '01' * (d // 2), 2) % q)
+        s.add(int('0' + '10' * (d // 2), 2) % q)
+        step = 1 if d <= 16 else 8
+        for j in list(range(1, d, step)) + [d // 2, d // 2 + 1, d - 1]:
+            s.update(((1 << j) % q, ((1 << j) + 1) % q, ((1 << j) - 1) % q))
+        return sorted(s)
+    ca = sorted({0, 1, 2, p - 2, p - 1, (p - 1) // 2, (p + 1) // 2})
+    codes = [0]
+    for _ in range(d):
+        codes = [c * p + a for c in codes for a in ca]
+    return sorted(set(codes))
+
+
+def alphabet(R):
+    return prime_alphabet(R.p) if R.prime else ext_alphabet(R)
+
+
+def first_irreducible(p, d, skip=0):
+    """The (skip+1)-th monic irreducible polynomial of degree d over GF(p) in code order (brute force)."""
+    for f in monic_polys(p, d):
+        if is_irreducible(f, p):
+            if skip == 0:
+                return f
+            skip -= 1
+    raise AssertionError
